@@ -3,6 +3,16 @@ import json
 from kv import lib
 
 PID = "C10"
+META = {
+    "level": "model_checking",
+    "text": "TLC checks the transcription of range_diff (L2) against the property's decision table (L1) on every ordered pair of "
+            "window maps in the bounded space; the same space plus seeded random larger maps is run through the real "
+            "ReplicationUpdateVector::range_diff and every real answer is judged by the TLA+ decision table.",
+    "note": "exhaustive within 2 servers x time 0..3 and 3 servers x 0..1 (quick) / 0..2 (thorough); beyond that sampled; "
+            "trusted: TLC, the H1 accessor that converts maps, whole-second timestamps",
+    "design_ref": "DESIGN.md section 6, C10",
+    "technique": "TLA+ operator spec (KRange) exhaustively model-checked by TLC; exhaustive replay of the input space through the real function, validated by TLC trace spec",
+}
 
 def run(tier, replay):
     R = lib.Result(PID, tier, "model_checking")
